@@ -50,7 +50,7 @@ PROPERTY = "C03"
 COHORT = 8            # models judged per quick-tier scenario
 RUNS = {"quick": 40, "thorough": 60_000}
 WALL = {"quick": 60, "thorough": 1500}
-BATCH = {"quick": 8, "thorough": 40}     # few, long worker tasks: every worker pays for its own zygotes
+BATCH = {"quick": 8, "thorough": 10}     # few, long worker tasks: every worker pays for its own zygotes
 SELFTEST_RUNS = 3
 SHRINK_BUDGET_S = {"quick": 30.0, "thorough": 60.0}
 SHRINK_SKIP = ("params", "model")
@@ -154,8 +154,8 @@ def gen(rng, tier):
     re-run in the same interpreter after the other members, one fake wall clock per member (offset twice as often as
     fast/frozen), hash seed 4242 with the members in rotated order so that another member is the first thing a fresh
     interpreter runs); hash seed 1 and literal subprocesses on a small sample.
-    thorough: one subject, 0-3 preceding models, every perturbation (the schedule of the original design)."""
-    if tier == "quick":
+    thorough: 80 % one subject, 0-3 preceding models, every perturbation (the schedule of the original design); 20 % cohorts."""
+    if tier == "quick" or rng.random() < 0.2:        # thorough: one scenario in five is a quick-style cohort
         names = rng.sample(MODELS, COHORT)
         jobs = [_gen_job(rng, n) for n in names]
         sc = jobs[0]
@@ -478,6 +478,10 @@ def _run_single(sc):
         if kind == "after-others":
             after = r
     counters["fault.others_run"] = len(sc.get("others", [])) if after is not None else 0
+    subj = _subject(sc)
+    counters["probe.spec_bundle_reused"] = int(subj["reuse_specs"])
+    counters["probe.boundary_seed_everywhere"] = int(subj["seed_mode"] == "same" and subj["seed"] in BOUNDARY_SEEDS)
+    counters["probe.seed_zero_everywhere"] = int(subj["seed_mode"] == "same" and subj["seed"] == 0)
     obs = ref["obs"]
     counters["probe.module_random_drawn"] = int(obs["drew_random"])
     counters["probe.numpy_random_drawn"] = int(obs["drew_numpy"])
